@@ -187,9 +187,8 @@ def search_contract(facts, rep, R3, sb):
         if disp_l is None:
             continue
         new_disp = env.get(disp_l)
-        improved = (op == "Gt" and truth)
-        if op != "Gt":
-            upd_ok = "the best match is replaced under %s (specified: strictly longer)" % op
+        if op not in ("Gt", "Ge"):
+            upd_ok = "the best match is replaced under %s (specified: when the candidate is longer)" % op
             continue
         if truth:
             strict += 1
